@@ -1,7 +1,7 @@
 #!/bin/bash
 # seedtest.sh <check-property> <seeded/<id>/<name>> : apply a seeded change to /repo, run the check, undo. Prints the verdict line.
 P=$1; D=$2
-cd /repo && git apply "$D/patch.diff" || { echo "patch does not apply"; exit 2; }
+cd /repo && (git apply "$D/patch.diff" 2>/dev/null || patch -p1 -s --no-backup-if-mismatch -F3 < "$D/patch.diff") || { echo "patch does not apply"; git -C /repo checkout -- .; exit 2; }
 cd /verif && ./check $P ${TIER:-quick} > /tmp/seedtest_$$.log 2>&1; rc=$?
 git -C /repo checkout -- .
 grep -E "^VIOLATION|^KNOWN|^UNDECIDED|^  [a-z]|exit [0-9]" /tmp/seedtest_$$.log | cut -c1-260 | head -${LINES_MAX:-12}
